@@ -11,7 +11,7 @@ META = {
             'correspondence of C15 on loop programs (probes inside and after loops); the search reports any unsound narrowing after a loop whose '
             'shape is not one of the three recorded ones.',
     "note": 'Loops: while with non-literal condition, `while true`, repeat, numeric for with literal bounds and unused loop variable, `if c then .. '
-            'break end`; no generic for, no continue/goto. Probes inside loop bodies are compared with the model (tie) but are outside the property '
+            'break end`, plus everything of C15\'s fragment inside and around loops (flipped comparisons, assert, early return/error); no generic for, no continue/goto. Probes inside loop bodies are compared with the model (tie) but are outside the property '
             '(C41 speaks about points after loops). The semantics is fuelled; the theorem also holds for the prefixes of runs that exhaust the fuel. '
             'Trusted: Coq kernel, the hand model (shared with C15), no Lua VM. Axioms: none. The K1 repair (merging the body into the post-loop '
             'flow) was tried and rejected: it breaks the pinned test test_dynamic_while_post_flow_ignores_body_assignment_for_print_arg.',
